@@ -26,6 +26,10 @@ def body(led):
     # integrated with the coupling terms removed by every kernel
     from . import py_panel
     py_panel.check_one_laminate(led)
+    # ... and the bending stiffnesses the closed forms are written with are those of the material the user gave: every ply stiffness is the
+    # tensor rotation of the plane-stress stiffness of the given constants (real read_laminaprop + Lamina.rebuild, as in C01)
+    from . import c01
+    c01.part_lamina(led)
     led.assume('C15: Cauchy interlacing / Rayleigh-Ritz min-max theorem (cited): eigenvalues of nested Gram pencils are monotone and bound the continuum values from above')
     led.assume('C15: the limit clause (convergence to the closed forms as m,n grow) and floating-point eigen-solver behaviour are not decidable by contracts; not claimed')
     func = 'premise(C15): nested trial spaces'
